@@ -96,8 +96,9 @@ def c07_jobs(tier):
             for present in ((0, 2) if tier == "quick" else (0, 1, 2, 4)):
                 for kind in ((0, 1, 3, 6, 9) if tier == "quick" else range(14)):
                     jobs.append(J("hsms", "ZZ_C07_declared", depth=d, nlb=nlb, present=present, kind=kind))
-    for fam in range(6):
-        jobs.append(J("hsms", "ZZ_C07_growth", fam=fam, j=(32 if tier == "quick" else 128), scale=(20000 if fam != 3 else 30000), fuel=400_000_000))
+    for fam in range(7):
+        scale = {3: 30000, 6: 6000}.get(fam, 20000)
+        jobs.append(J("hsms", "ZZ_C07_growth", fam=fam, j=(32 if tier == "quick" or fam == 6 else 128), scale=scale, fuel=400_000_000))
     return jobs
 
 
@@ -370,6 +371,13 @@ def c13_jobs(tier):
         # first size beyond the limit for the 1- and 2-byte formats (the at-limit side would need 16M-element items)
         for t in (1, 2, 3, 5, 6, 11, 12):
             jobs.append(J("ast", "ZZ_C13_factory", typ=t, n=16777215 // TYPE_W[t] + 1, **BIG))
+    # decoder read-back of length fields (harnesses shared with C03): all length bytes symbolic with
+    # 256+ bytes present, and length fields of different widths in sequence
+    for kind in (3, 1):
+        for nlb, present in ((1, 0), (1, 255), (2, 0), (2, 256), (3, 0), (3, 256)) + (() if tier == "quick" else ((2, 65535), (3, 65536))):
+            jobs.append(J("hsms", "ZZ_C03_lenbytes", kind=kind, nlb=nlb, present=present, fuel=2_000_000_000, timeout_s=(250 if tier == "quick" else 3300)))
+    for order in range(4):
+        jobs.append(J("hsms", "ZZ_C03_mixed", order=order, fuel=400_000_000))
     return jobs
 
 
